@@ -20,6 +20,11 @@ decoded here by small spec decoders, never by the model):
   O8 strfu / layout  `strfu <array> <text>` (xds_strfu on an exact-size heap array): result = comparison of the complete
                    strings, array = text + terminator + untouched rest, `rej oob` exactly when it does not fit; `layout`:
                    a 32-byte text fits name[] and call[], vbi_program_id has no padding.
+  O9 sender side   `note tx` (emitted for every packet built by the C12 sender specification): PROG_ID / LOCAL_TIME carry exactly the
+                   field values the station put in (format 2 also with one bit error per packet); NETWORK_ID carries the table's
+                   name and the call letters received last; NETWORK is followed by NETWORK_ID with the same record; PROG_INFO
+                   follows ASPECT with the same record; the ASPECT event of a reset is the full-format record of the system
+                   (625 / 525 lines) of the line kind (WSS-625 / CPR-1204 word) that stored the aspect ratio being forgotten.
 """
 import importlib.util, os, subprocess, sys
 sys.path.insert(0, os.path.join(os.path.dirname(os.path.abspath(__file__)), "..", "lib"))
@@ -84,6 +89,24 @@ class Table:
         return 0, True
 
 
+def table_name(tbl, carrier, cni):
+    """name of the first row that answers the look-up (None where the documented behaviour says nothing)"""
+    if cni == 0:
+        return b""
+    col = {"8301": 3, "8302": 4, "vps": 6}[carrier]
+    for r in tbl.rows:
+        if r[col] == cni:
+            return r[2]
+    if carrier == "8302":
+        m = cni & 0xFFF
+        if m == 0:
+            return None
+        for r in tbl.rows:
+            if r[6] == m:
+                return r[2]
+    return b""
+
+
 xds_norm = nu.xds_filter
 
 
@@ -95,7 +118,7 @@ class Rx:
         self.extra = {}
         k, arg = tok.split(":", 1)
         try:
-            b = list(bytes.fromhex(arg)) if k in "vtwnc" and arg != "-" else []
+            b = list(bytes.fromhex(arg)) if k in "vtwncj" and arg != "-" else []
         except ValueError:
             b = []
         if k == "v" and len(b) == 13:
@@ -104,6 +127,8 @@ class Rx:
             self.extra["pid"] = [4, 1, d["cni"], d["pil"], 0, 1, 0, d["pcs"], d["pty"]]
         elif k == "w" and len(b) == 2:
             self.kind, self.value = "wss", (b[0], b[1])
+        elif k == "j" and len(b) == 3:
+            self.kind, self.value = "cpr", b[0]
         elif k == "n":
             self.kind, self.value = "xdsname", xds_norm(b)
         elif k == "c":
@@ -147,7 +172,7 @@ class Rx:
 def frame_tokens(op):
     """op line -> (t, [tokens]) or None"""
     w = op.split()
-    sugar = {"vps": "v:", "p830": "t:", "wss": "w:", "xdsname": "n:", "xdscall": "c:", "page": "p:"}
+    sugar = {"vps": "v:", "p830": "t:", "wss": "w:", "cpr": "j:", "xdsname": "n:", "xdscall": "c:", "page": "p:"}
     try:
         if w[0] == "frame":
             return int(w[1], 0), w[2:]
@@ -164,7 +189,7 @@ CARRIER_FIELD = {"vps": 3, "8301": 4, "8302": 5}   # index into net/nid event fi
 class C13(verif.Spec):
     prop = "C13"
     comp = "net"
-    lean_modules = ["ZvbiModel.Props.C13", "ZvbiModel.Props.C13Str"]
+    lean_modules = ["ZvbiModel.Props.C13", "ZvbiModel.Props.C13Str", "ZvbiModel.Props.C13Ev"]
     harness = "net_harness"
     harness_link_lib = True
     # the private arrays vbi->cni_cycle[] / cni_announced[] exist only with fixes/C13-cni-cycle-per-carrier.diff applied;
@@ -181,13 +206,14 @@ class C13(verif.Spec):
     assumptions = ["one event handler; frame times are integers of microseconds below 2^40 and never exactly 25000/50000 us apart "
                    "(the C code compares doubles)",
                    "wss_rep_ct does not overflow (2^31 identical WSS words, F13)",
-                   "XDS class 0/1 (programme aspect) packets are not fed, so prog_info[0].aspect changes only through WSS and reset"]
+                   "XDS class 0/1 (programme aspect) packets are not fed, so prog_info[0].aspect changes only through WSS-625 / CPR-1204 words and resets (aspect_source is 0, 1 or 2)"]
     trusted_base = ["Net/XdsStr.lean extents nameSize / callSize / xdsMaxLen and the field list of vbi_program_id: compared with the compiled structs by the `layout` op on every run",
                     "translate/gen_net.py (CNI table rows, event bits, XDS guard shape; rows and look-ups cross-checked against the compiled code)",
                     "translate/gen_netflags.py (shape of the CNI debounce: shared / per-carrier cycle, vbi_chsw_reset call, vbi_event_enable inner test; "
                     "a mixed shape is a translator error, a wrong flag breaks the correspondence on the corpus replays)",
                     "harness/net_harness.c + lean/Driver/Net.lean (correspondence over vbi_decode incl. internal state dumps)",
-                    "Codec model of C12 for the VPS / 8/30 field decoders (decodeVpsCni, decodeVpsPdc, decode8301LocalTime, decode8302Pdc)"]
+                    "Codec model of C12 for the VPS / 8/30 field decoders (decodeVpsCni, decodeVpsPdc, decode8301LocalTime, decode8302Pdc) "
+                    "and its sender specification enc8301 / enc8302 with the proved round trips (Props/C12.lean), imported by Props/C13Ev.lean"]
     open_statements = []
 
     def __init__(self):
@@ -218,6 +244,14 @@ class C13(verif.Spec):
         # handler registrations / mask changes / removals in the middle of reception histories, values stable
         for i in range(300 if quick else 4000):
             plans.append(self.plan_handlers(rng))
+        # every field from the sender's side: packets 8/30 built from random field values (format 2 with single bit errors),
+        # and the aspect source: WSS-625 / CPR-1204 words followed by resets
+        for i in range(200 if quick else 3000):
+            plans.append(self.plan_sender(rng))
+        for i in range(300 if quick else 4000):
+            plans.append(self.plan_aspsrc(rng))
+        for i in range(80 if quick else 1000):
+            plans.append(self.plan_callkept(rng))
         for i in range(500 if quick else 6000):
             plans.append(self.plan_malformed(rng))
         pk = self.enc.run()
@@ -230,14 +264,22 @@ class C13(verif.Spec):
                 else:           # ("frame", t, [tokens or ("pk", idx, mutate)])
                     _, t, toks = item
                     out = []
-                    for tk in toks:
+                    sent = []
+                    for pos_, tk in enumerate(toks):
                         if isinstance(tk, tuple):
                             b = list(pk[tk[1]])
                             for pos, x in tk[2]:
                                 b[pos] ^= x
                             out.append("t:" + hx(b))
+                            m = self.enc.meta[tk[1]]
+                            # clean = as sent, or (format 2) one flipped bit in a Hamming 8/4 protected byte
+                            if all(x == 0 or (m[0] == "8302" and 9 <= pos <= 21 and bin(x).count("1") == 1) for pos, x in tk[2]) \
+                                    and sum(1 for pos, x in tk[2] if x) <= 1:
+                                sent.append("%d:%s" % (pos_, ":".join(str(int(v)) if not isinstance(v, str) else v for v in m)))
                         else:
                             out.append(tk)
+                    if sent:
+                        c.append("note tx %d %s" % (t, " ".join(sent)))
                     c.append("frame %d %s" % (t, " ".join(out)) if out else "frame %d" % t)
             cases.append(c)
         # xds_strfu on raw destination arrays (stale bytes behind the terminator, all length relations) and the struct layout
@@ -420,6 +462,83 @@ class C13(verif.Spec):
             if rng.random() < 0.3: plan.append("state")
         return plan
 
+    def plan_sender(self, rng):
+        """packets 8/30 format 1 / 2 built by the sender specification from random field values; the `note tx` op that
+        precedes each frame tells the oracle what was sent"""
+        t = [rng.randrange(1, 10 ** 6)]
+        def T():
+            t[0] += rng.choice([40000, 33367]); return t[0]
+        E = nu.EV
+        mask = rng.choice([nu.MASK_ALL, E["PROG_ID"] | E["LOCAL_TIME"], E["PROG_ID"] | E["LOCAL_TIME"] | E["TTX_PAGE"],
+                           nu.MASK_ALL & ~E["NETWORK"], E["PROG_ID"] | E["LOCAL_TIME"] | E["NETWORK_ID"], E["LOCAL_TIME"], E["PROG_ID"]])
+        plan = ["mask %d" % mask, "note sender"]
+        for i in range(rng.randrange(6, 20)):
+            if rng.random() < 0.5:
+                idx = self.enc.p8302(rng.choice([0, 0xFFFF, 0x0DC3, rng.randrange(65536)]), pil=rng.choice([0, 0xFFFFF, 0x2B0C0, rng.randrange(1 << 20)]),
+                                     pty=rng.choice([0, 0xFF, rng.randrange(256)]), lci=rng.randrange(4), luf=rng.randrange(2),
+                                     prf=rng.randrange(2), pcs=rng.randrange(4), mi=rng.randrange(2), designation=2 + rng.randrange(2), rng=rng)
+                mut = [(9, 0)] if rng.random() < 0.6 else [(rng.randrange(9, 22), 1 << rng.randrange(8))]
+            else:
+                idx = self.enc.p8301(rng.randrange(65536), mjd=rng.choice([40587, 58754, 99999, 0, rng.randrange(100000)]), hh=rng.randrange(24),
+                                     mm=rng.randrange(60), ss=rng.choice([0, 59, 60, rng.randrange(60)]), lto=rng.randrange(32),
+                                     neg=rng.randrange(2), designation=rng.randrange(2), rng=rng)
+                mut = [(9, 0)]
+            plan.append(("frame", T(), [("pk", idx, mut)]))
+        return plan
+
+    def plan_callkept(self, rng):
+        """XDS call letters next to CNI carriers: the record announced for a station identified by VPS / 8/30 carries the
+        call letters received last (the CNI paths write n->name only)"""
+        t = [rng.randrange(1, 10 ** 6)]
+        def T():
+            t[0] += rng.choice([40000, 33367]); return t[0]
+        plan = ["mask %d" % nu.MASK_ALL, "note callkept"]
+        for _ in range(rng.randrange(2, 5)):
+            call = bytes(rng.choice(b"ABCDKQWZ") for _ in range(rng.choice([2, 4, 4])))
+            for i in range(rng.randrange(1, 3)):
+                plan.append(("frame", T(), ["c:" + hx(call)]))
+            c = rng.choice(["vps", "8301", "8302"])
+            st = self.pick_station(rng, [c], agree=True)
+            for i in range(rng.randrange(2, 4)):
+                plan.append(("frame", T(), [self.line_for(rng, c, st[c])]))
+            if rng.random() < 0.5: plan.append("state")
+        plan.append("state")
+        return plan
+
+    def plan_aspsrc(self, rng):
+        """which line kind stored the aspect ratio a reset forgets: WSS-625 words (four identical) or CPR-1204 words
+        (525-line systems, no debounce), then vbi_channel_switched + one frame"""
+        t = [rng.randrange(1, 10 ** 6)]
+        def T():
+            t[0] += rng.choice([40000, 33367]); return t[0]
+        E = nu.EV
+        mask = rng.choice([nu.MASK_ALL, E["ASPECT"], E["ASPECT"] | E["PROG_INFO"], E["ASPECT"] | E["NETWORK"] | E["NETWORK_ID"], E["PROG_INFO"]])
+        plan = ["mask %d" % mask, "note aspsrc"]
+        def wss():
+            return "w:" + hx(nu.wss_word(rng.randrange(8), rng.randrange(2), rng.randrange(4)))
+        def cpr():
+            return "j:" + hx([rng.choice([0, 0x40, 0x80, 0xC0]) | rng.randrange(64), rng.randrange(256), rng.randrange(256)])
+        for _ in range(rng.randrange(2, 7)):
+            k = rng.random()
+            if k < 0.45:
+                w = wss()
+                for i in range(rng.choice([2, 4, 4, 5])):
+                    plan.append(("frame", T(), [w]))
+            elif k < 0.9:
+                j = cpr()
+                for i in range(rng.choice([1, 1, 2])):
+                    plan.append(("frame", T(), [j]))
+            else:
+                plan.append(("frame", T(), []))
+            if rng.random() < 0.6:
+                plan.append("chsw")
+                k = rng.random()
+                plan.append(("frame", T(), [] if k < 0.6 else [wss()] if k < 0.8 else [cpr()]))
+            if rng.random() < 0.2:
+                plan.append("state")
+        plan.append("state")
+        return plan
+
     def plan_handlers(self, rng):
         """One station (one carrier, known to the table) and one valid WSS word keep arriving unchanged while the
         handler is registered again with other masks: bits of OTHER event classes added / removed, the second bit of
@@ -584,7 +703,8 @@ class C13(verif.Spec):
                 tk = self.line_for(rng, c, rng.choice(vals[c]), pil=rng.choice([1, 2, 0x40001, 0x40002]))
             elif k < 0.7: tk = "n:" + hx(rng.choice(names))
             elif k < 0.75: tk = "c:" + hx(rng.choice(names)[:4])
-            elif k < 0.95: tk = "w:" + hx(rng.choice(words))
+            elif k < 0.93: tk = "w:" + hx(rng.choice(words))
+            elif k < 0.96: tk = "j:" + hx([rng.choice([0, 0x40, 0x80, 0xC0, rng.randrange(256)]), rng.randrange(256), 0])
             else: tk = "p:%d" % (0x100 + rng.randrange(10))
             plan.append(("frame", T(), [tk]))
             if rng.random() < 0.1: plan.append("cached %d" % (0x100 + rng.randrange(10)))
@@ -830,7 +950,7 @@ class C13(verif.Spec):
                 return "station:" + (l.split()[3] if len(l.split()) > 3 else "?").split("=")[0] + ("-multi" if "multi" in l else "")
         if case and case[0].startswith(("tbl", "lookup", "layout", "strfu")):
             return case[0].split()[0]
-        if len(case) > 1 and case[1].startswith("note ") and case[1].split()[1] in ("xds-names", "pid", "onefield", "handlers"):
+        if len(case) > 1 and case[1].startswith("note ") and case[1].split()[1] in ("xds-names", "pid", "onefield", "handlers", "sender", "aspsrc", "callkept"):
             return case[1].split()[1]
         if not self.regular(case):
             return "malformed"
@@ -894,6 +1014,11 @@ class C13(verif.Spec):
         gap_seen = False       # a time-stamp gap armed the countdown: a time-out reset may follow
         last_t = None
         nops = 0
+        src_poss = set()       # line kinds (1 = WSS-625, 2 = CPR-1204) that may have stored the aspect ratio since the last reset
+        src_sure = None        # ... the one that certainly did
+        pending_tx = None      # (t, [(line position, what the sender put into the packet)]) for the next frame
+        aspsrc_case = len(case) > 1 and case[1].startswith("note aspsrc")
+        callkept_case = len(case) > 1 and case[1].startswith("note callkept")
         for op, o in zip(case, out):
             w = op.split()
             nops += 1
@@ -919,6 +1044,12 @@ class C13(verif.Spec):
                     expect_uncached = True
                 elif w[1] == "expect-cached":
                     expect_cached = True
+                elif w[1] == "tx":
+                    try:
+                        pending_tx = (int(w[2]), [(int(x.split(":")[0]), tuple([x.split(":")[1]] + [int(y) for y in x.split(":")[2:]]))
+                                                  for x in w[3:]])
+                    except (ValueError, IndexError):
+                        pending_tx = None
                 continue
             if w[0] == "cached":
                 if win and win["kind"] == "quiet-begin" and o != "ok 1":
@@ -948,6 +1079,7 @@ class C13(verif.Spec):
                     xcall, xrun, xpending = b"", 0, False
                 if act & (nu.EV["ASPECT"] | nu.EV["PROG_INFO"]) and not mask & (nu.EV["ASPECT"] | nu.EV["PROG_INFO"]):
                     last_aspect = known_aspect = None
+                    src_poss, src_sure = set(), None
                 if act & nu.EV["PROG_ID"]:
                     other_cycle, prev_vps_pid = True, None
                 mask = new
@@ -964,6 +1096,26 @@ class C13(verif.Spec):
                 gap_seen = True
             last_t = t
             rxs = [Rx(tk, mask) for tk in toks]
+            # --- sender side: a clean packet 8/30 makes the decoder report exactly the values the station put in ---------
+            tx, pending_tx = (pending_tx if pending_tx and pending_tx[0] == t else None), None
+            if tx and all(pos < len(toks) and toks[pos].startswith("t:") for pos, _ in tx[1]):
+                want = {"pid": [], "lt": []}
+                for pos, m in tx[1]:
+                    tg, f = nu.sent_events(m)
+                    want[tg].append(f)
+                got = {"pid": [[int(x) for x in f if x != "dirty"] for tg, f in evs if tg == "pid" and len(f) > 1 and f[1] == "3"],
+                       "lt": [[int(x) for x in f] for tg, f in evs if tg == "lt"]}
+                complete = len(tx[1]) == len([1 for tk in toks if tk.startswith("t:")])
+                for tg, bit, name in (("pid", nu.EV["PROG_ID"], "sender-pid: PROG_ID"), ("lt", nu.EV["LOCAL_TIME"], "sender-time: LOCAL_TIME")):
+                    if not mask & bit:
+                        continue
+                    rest = list(got[tg])
+                    for f in want[tg]:
+                        if f not in rest:
+                            return "%s %s expected for the packet sent, events are %s" % (name, f, got[tg])
+                        rest.remove(f)
+                    if complete and rest:
+                        return "%s %s reported, the packets of the frame carry %s" % (name, rest[0], want[tg])
             # a time-out reset at the head of the frame: NETWORK with an empty record as the very first event
             head_nets = []
             if evs and evs[0][0] == "net" and all(x in ("0", "-") for x in evs[0][1]) and (gap_seen or pending_reset or not toks) \
@@ -972,6 +1124,12 @@ class C13(verif.Spec):
                 evs = evs[1:]
             nets = [f for (tg, f) in evs if tg == "net"]
             nids = [f for (tg, f) in evs if tg == "nid"]
+            if callkept_case:
+                for r in rxs:
+                    if r.kind == "xdscall": xcall = r.value
+                for f in nets + nids:
+                    if f[2] != hx(xcall):
+                        return "faithful-call: announced record carries call letters %s, received last were %s" % (f[2], hx(xcall))
             asps = [f for (tg, f) in evs if tg == "asp"]
             # --- resets at the head of the frame (countdown / vbi_channel_switched) ----------------
             head_reset = False
@@ -985,7 +1143,9 @@ class C13(verif.Spec):
                 win["nets"] += head_nets
                 if win["kind"] == "quiet-begin":
                     return self.quiet_what(win, "NETWORK event (time-out reset)")
+            src_before, sure_before = set(src_poss), src_sure
             if head_reset:
+                src_poss, src_sure = set(), None
                 prev, hist_wss, dirty, last_aspect, nuid, pending_reset = {}, [], False, None, 0, False
                 dirty_c, known_aspect = {}, None
                 gap_seen = False
@@ -996,6 +1156,7 @@ class C13(verif.Spec):
             first_rep, dev_after = None, False   # position of the first line that may announce; deviation after it
             wss_rx, wss_pos, last_id_pos = None, None, None
             xname_rx = None
+            cpr_rx = None
             for pos, r in enumerate(rxs):
                 if r.kind == "vps":
                     r.extra["prev_pid"] = prev_vps_pid
@@ -1033,6 +1194,8 @@ class C13(verif.Spec):
                     xcall = r.value
                 elif r.kind == "wss":
                     wss_rx, wss_pos = r, pos
+                elif r.kind == "cpr":
+                    cpr_rx = r
             # --- F17 shape: identified station replaced by an unknown CNI -> state wiped, NETWORK twice, zeros announced
             f17 = "change-unknown-many: NETWORK raised twice and NETWORK_ID carries zeros when an identified station is replaced by an unknown CNI"
             if toks and len([n for n in nets if all(x in ("0", "-") for x in n[:6])]) >= 2:
@@ -1058,8 +1221,11 @@ class C13(verif.Spec):
                                 ok = True
                     elif int(f[CARRIER_FIELD[r.kind]]) == r.value:
                         want, defined = self.tbl.lookup(r.kind, r.value)
+                        tname = table_name(self.tbl, r.kind, r.value)
                         if defined and int(f[0]) != want:
                             why = "faithful: NETWORK_ID nuid %s, table says %d for %s %04x" % (f[0], want, r.kind, r.value)
+                        elif defined and tname is not None and f[1] != hx(tname if want else b""):
+                            why = "faithful-name: NETWORK_ID name %s, table says %s for %s %04x" % (f[1], hx(tname if want else b""), r.kind, r.value)
                         else:
                             ok = True
                             matched.append(r.kind)
@@ -1090,6 +1256,10 @@ class C13(verif.Spec):
             line_reset = False
             if toks and nets and has_nid and not nids:
                 return "faithful: NETWORK event from a line without NETWORK_ID"
+            if toks and has_net and has_nid:
+                for i, (tg, f) in enumerate(evs):
+                    if tg == "net" and not all(x in ("0", "-") for x in f[:6]) and not (i + 1 < len(evs) and evs[i + 1] == ("nid", f)):
+                        return "faithful: NETWORK event %s is not followed by a NETWORK_ID event with the same record" % ":".join(f)
             if toks and nets:
                 if win is not None:
                     win["nets"] += nets
@@ -1148,9 +1318,48 @@ class C13(verif.Spec):
             for r in rxs:
                 if r.kind == "vps": seen_vps_pid.add(tuple(r.extra["pid"]))
             # --- ASPECT: O1, O2, O3 ------------------------------------------------------------------------
-            for f in asps:
+            # PROG_INFO: never alone, never another record than the ASPECT event before it (the reset's ASPECT has none)
+            reset_shapes = {1: [23, 310, 1, 0, 3], 2: [22, 262, 1, 0, 3]}
+            lenient = set(src_before) | ({1} if wss_rx is not None and line_reset else set()) | ({2} if cpr_rx is not None and line_reset else set())
+            reset_open = (head_reset and bool(src_before)) or line_reset
+            reset_idx = None
+            cand = [i for i, (tg, f) in enumerate(evs) if tg == "asp" and [int(x) for x in f][2:] == [1, 0, 3] and
+                    abs(int(f[0]) - 22) <= 1 and int(f[1]) in (261, 262, 263, 309, 310, 311)]
+            if reset_open and cand:
+                # a CPR-1204 word for "4:3 full format" announces the same record as the reset of a 525-line source: a single
+                # such event in a frame that also resets is the reset's only when the decoder certainly had a source
+                own = cpr_rx is not None and nu.cpr_spec(cpr_rx.value) == reset_shapes[2]
+                if not (own and len(cand) == 1 and sure_before is None):
+                    reset_idx = cand[0]
+            if mask & nu.EV["ASPECT"] and mask & nu.EV["PROG_INFO"]:
+                for i, (tg, f) in enumerate(evs):
+                    if tg == "pi" and not (i > 0 and evs[i - 1] == ("asp", f) and i - 1 != reset_idx):
+                        return "faithful-prog-info: PROG_INFO %s does not follow an ASPECT event with the same record" % ":".join(f)
+                    if tg == "asp" and i != reset_idx and not (i + 1 < len(evs) and evs[i + 1] == ("pi", f)):
+                        return "faithful-prog-info: ASPECT %s of a line is not followed by PROG_INFO with the same record" % ":".join(f)
+            elif mask & nu.EV["PROG_INFO"]:
+                for tg, f in evs:
+                    if tg == "pi":
+                        vals = [int(x) for x in f]
+                        if not ((wss_rx is not None and vals == wss_spec(*wss_rx.value)) or (cpr_rx is not None and vals == nu.cpr_spec(cpr_rx.value))):
+                            return "faithful-prog-info: PROG_INFO %s is the aspect of no WSS / CPR line of the frame" % ":".join(f)
+            if reset_idx is not None:
+                vals = [int(x) for x in evs[reset_idx][1]]
+                if vals not in [reset_shapes[k] for k in lenient]:
+                    return "faithful-reset-aspect: reset announces %s, the aspect ratio it forgets was stored by %s" % (
+                        vals, " or ".join({1: "a WSS-625 word (23..310)", 2: "a CPR-1204 word (22..262)"}[k] for k in sorted(lenient)) or "nothing")
+            elif aspsrc_case and head_reset and sure_before is not None and mask & nu.EV["ASPECT"]:
+                return "liveness-reset-aspect: the reset forgot an aspect ratio (source %d) without an ASPECT event" % sure_before
+            for i, (tg, f) in enumerate(evs):
+                if tg != "asp":
+                    continue
                 vals = [int(x) for x in f]
-                if (head_reset or line_reset) and vals in ([23, 310, 1, 0, 3], [22, 262, 1, 0, 3]):
+                if i == reset_idx:
+                    continue
+                if cpr_rx is not None and vals == nu.cpr_spec(cpr_rx.value):
+                    if last_aspect == vals:
+                        return "stable: ASPECT announced again for an unchanged aspect (CPR-1204)"
+                    last_aspect = vals
                     continue
                 if wss_rx is None:
                     return "faithful: ASPECT event without a WSS line"
@@ -1169,10 +1378,22 @@ class C13(verif.Spec):
                 if len(hist_wss) >= 4 and all(x == (b0, b1) for x in hist_wss[-4:]) and wss_parity_ok(b0) \
                         and last_aspect != wss_spec(b0, b1) and known_aspect != wss_spec(b0, b1):
                     return "liveness: four identical valid WSS words, new aspect, no ASPECT event"
+            if line_reset:
+                src_poss, src_sure = set(), None
             if wss_rx is not None:
                 b0, b1 = wss_rx.value
+                src_poss.add(1)
                 if len(hist_wss) >= 4 and all(x == (b0, b1) for x in hist_wss[-4:]) and wss_parity_ok(b0):
+                    if known_aspect != wss_spec(b0, b1):
+                        src_poss, src_sure = {1}, 1
                     known_aspect = wss_spec(b0, b1)
+            if cpr_rx is not None:
+                # no debounce: every word whose aspect differs from the stored one is announced at once
+                if aspsrc_case and mask & nu.EV["ASPECT"] and known_aspect != nu.cpr_spec(cpr_rx.value) \
+                        and not any(tg == "asp" and i != reset_idx and [int(x) for x in f] == nu.cpr_spec(cpr_rx.value) for i, (tg, f) in enumerate(evs)):
+                    return "liveness-cpr: CPR-1204 word with a new aspect %s, no ASPECT event" % nu.cpr_spec(cpr_rx.value)
+                src_poss, src_sure = {2}, 2
+                known_aspect = nu.cpr_spec(cpr_rx.value)
         return None
 
     def quiet_what(self, win, what):
